@@ -209,7 +209,7 @@ def build_jobs(prop, tier, wd, only=None):
     for h in hs.values():
         if prop not in h.props:
             continue
-        if h.tier == "thorough" and tier != "thorough":
+        if (h.tier == "thorough" or prop in h.thorough_only) and tier != "thorough":
             continue
         if only and only not in h.name:
             continue
